@@ -45,14 +45,14 @@ fn mt_run(prop: &str, run: u64) -> bool {
         "C02" | "C07" | "C12" => true,
         "C13" => crate::rng::mix(run) % 2 == 1,
         // zero-fill must also hold when the released space is recycled under an interleaving
-        "C08" | "C03" => crate::rng::mix(run) % 16 == 15,
+        "C08" | "C03" | "C04" => crate::rng::mix(run) % 16 == 15,
         _ => false,
     }
 }
 
 fn mt_flavour(prop: &str) -> MtFlavour {
     match prop {
-        "C02" | "C08" | "C03" => MtFlavour::Safety,
+        "C02" | "C08" | "C03" | "C04" => MtFlavour::Safety,
         "C07" => MtFlavour::Liveness,
         "C12" => MtFlavour::Hb,
         _ => MtFlavour::Lifecycle,
@@ -111,7 +111,7 @@ pub fn plan(prop: &str, tier: &str) -> Option<Plan> {
     Some(match prop {
         "C01" => base(1_500_000, 30_000_000, "seeded single-client histories (swarm over flavour x freelist x backend x layout x reserved x min segment x max alignment x capacity) of alloc_bytes/alloc_aligned_bytes/alloc<T>/owned variants/drop/detach/dealloc, arena exhaustion as the only fault; after every step every live range is checked for bounds, disjointness and byte equality with the shadow store. Non-trivial = at least one allocation was served from a recycled segment while >= 2 other ranges were live; distinct = distinct hash of the sequence of abstract states (cursor, free-list shape, live set)"),
         "C03" => base(1_500_000, 30_000_000, "histories engineered for cursor residues (1..3 byte steps, odd sizes) and typed slow-path requests; per call: capacity / offset / address alignment / zero-size behaviour. Non-trivial = at least one typed or aligned request served from a recycled segment, or a zero-size request on a full arena; distinct by abstract state sequence hash"),
-        "C04" => base(1_500_000, 30_000_000, "boundary-dense request sizes (0, 1, remaining+-d, cap+-d, 2^31+-d, u32::MAX-allocated+-d, u32::MAX-k, random) on arbitrary reachable states incl. read-only sessions; error => state snapshot identical; panic / out-of-arena access (hook address check, Meta::clear range check) => violation. Non-trivial = at least one request >= 2^31 or within 3 of remaining()/cap failed or succeeded on a non-empty free list; distinct by abstract state sequence hash. This file reports the release profile; the checked profile (overflow-checks + debug-assertions) is run by the same command and merged"),
+        "C04" => base(1_000_000, 20_000_000, "boundary-dense request sizes (0, 1, remaining+-d, cap+-d, 2^31+-d, u32::MAX-allocated+-d, u32::MAX-k, random) on arbitrary reachable states incl. read-only sessions; error => state snapshot identical; panic / out-of-arena access (hook address check, Meta::clear range check) => violation. Non-trivial = at least one request >= 2^31 or within 3 of remaining()/cap failed or succeeded on a non-empty free list; distinct by abstract state sequence hash. This file reports the release profile; the checked profile (overflow-checks + debug-assertions) is run by the same command and merged"),
         "C05" => base(800_000, 16_000_000, "file-backed histories cut by close+reopen (map_mut / map_copy / map / map_copy_read_only x capacity same/larger/absent); durable model carried across restarts, copy-on-write sessions must not persist. Non-trivial = at least 2 reopen cycles with live data and a non-empty free list; distinct by abstract state sequence hash"),
         "C08" => base(1_500_000, 30_000_000, "histories in which every owner fills its buffer with non-zero bytes before release (incl. rewind, dealloc-on-top, discard_freelist, reopen); all bytes of each alloc_bytes result must be 0 at return. Non-trivial = at least one alloc_bytes served from a recycled segment or from rewound space that held non-zero bytes; distinct by abstract state sequence hash"),
         "C10" => base(1_500_000, 30_000_000, "histories with set_minimum_segment_size / discard_freelist anywhere; after every step snapshot well-formedness (finite, aligned, in area, disjoint, ordered), and the policy oracle on every request that fresh space could not satisfy. Non-trivial = at least 2 slow-path requests with >= 2 segments on the list; distinct by abstract state sequence hash"),
@@ -121,7 +121,7 @@ pub fn plan(prop: &str, tier: &str) -> Option<Plan> {
         "C18" => base(1_200_000, 20_000_000, "unsync::Arena histories (Vec / anon / file, unify on/off, free list and live detached data) with truncate(n), n boundary-dense in 0..=4*capacity, repeated; capacity = max(n, allocated), header / free list / bytes below allocated unchanged, later allocations judged by the per-step oracles against the new capacity; read-only sessions must refuse. Non-trivial = at least one growing and one shrinking truncate with a non-empty free list or live data; distinct by abstract state sequence hash"),
         "C20" => base(1_500_000, 30_000_000, "histories with discard_freelist / increase_discarded / set_minimum_segment_size anywhere; per-step accounting from (discarded, snapshot) before/after, discarded ranges never handed out again. Non-trivial = discard_freelist on a list with >= 2 segments and at least one too-small release; distinct by abstract state sequence hash"),
         "C06" => {
-            let mut p = base(20_000, 150_000, "file-backed histories (sync: Optimistic / Pessimistic / None; unsync at operation boundaries); the hook copies memory() at every atomic step; every step of every operation (before the first and after the last access included) is a crash point - all of them within a history in the thorough tier, every third plus all operation boundaries in the quick tier; each image is written to a fresh tmpfs file and opened with the real map_mut; oracle: opens, data_offset <= cursor <= capacity, every range returned and not being released holds its bytes and lies below the cursor, post-crash workload (fill, drain the list, free, discard_freelist) terminates under a 20000-step per-call budget and never hands out a pre-crash live byte. evaluations = histories; coverage.faults_fired.crash_point = crash points. Non-trivial = history with >= 3 in-operation crash points, live ranges and a non-empty free list; distinct by access-trace hash");
+            let mut p = base(12_000, 100_000, "file-backed histories (sync: Optimistic / Pessimistic / None; unsync at operation boundaries); the hook copies memory() at every atomic step; every step of every operation (before the first and after the last access included) is a crash point - all of them within a history in the thorough tier, every third plus all operation boundaries in the quick tier; each image is written to a fresh tmpfs file and opened with the real map_mut; oracle: opens, data_offset <= cursor <= capacity, every range returned and not being released holds its bytes and lies below the cursor, post-crash workload (fill, drain the list, free, discard_freelist) terminates under a 4000-step per-call budget and never hands out a pre-crash live byte. evaluations = histories; coverage.faults_fired.crash_point = crash points. Non-trivial = history with >= 3 in-operation crash points, live ranges and a non-empty free list; distinct by access-trace hash");
             p.level = "fault_enumeration";
             p.exhaustive = false;
             p
@@ -229,6 +229,31 @@ fn summarise_diff(prop: &str, spec: &crate::diff::DiffSpec, out: &crate::diff::D
 pub const SWEEP_RUNS: u64 = 4097;
 
 fn run_one_inner(prop: &str, seed: u64, run: u64, tier: &str) -> RunSummary {
+    if prop == "C06" && crate::rng::mix(run) % 4 == 0 {
+        // threads in flight: a scheduled multi-thread run on a file-backed arena, crash points at atomic steps
+        let every = if tier == "thorough" { 1 } else { 3 };
+        let mut spec = mtscen::gen_spec(seed, run, MtFlavour::Liveness);
+        spec.cfg.backend = crate::arena::Backend::File;
+        spec.cfg.unify = true;
+        spec.cfg.cap = spec.cfg.cap.min(1024);
+        spec.crash_every = Some(every);
+        let mut mo = mtscen::run_spec(&spec, false);
+        let mut co = crate::crash::CrashOut::default();
+        let pts = std::mem::take(&mut mo.crash_points);
+        if !mo.setup_failed {
+            crate::crash::check_mt_points(&spec.cfg, &pts, run, &mut co);
+        }
+        let mut s = summarise_mt(prop, &spec, &mo);
+        s.viols.extend(co.viols.iter().cloned());
+        s.faults.insert("crash_point".to_string(), co.crash_points);
+        s.faults.insert("crash_point_inside_operation".to_string(), co.crash_points_in_op);
+        s.faults.insert("crash_point_with_live_ranges".to_string(), co.crash_points_with_obligations);
+        s.faults.insert("crash_point_threads_in_flight".to_string(), pts.iter().filter(|p| p.in_flight >= 2).count() as u64);
+        s.probes.insert("crash:post_crash_operations".to_string(), co.post_ops);
+        s.nontrivial = !mo.setup_failed && pts.iter().any(|p| p.in_flight >= 2) && co.crash_points_with_obligations >= 1;
+        s.ops = co.crash_points;
+        return s;
+    }
     if prop == "C06" {
         let every = if tier == "thorough" { 1 } else { 3 };
         let (spec, out) = crate::crash::generate(seed, run, every);
@@ -295,6 +320,9 @@ fn diff_replay_json(prop: &str, kind: &str, seed: u64, run: u64, spec: &crate::d
 
 pub fn minimise(prop: &str, seed: u64, run: u64, tier: &str, sig: &str) -> Option<Value> {
     let mut tag = 1u64 << 41;
+    if prop == "C06" && crate::rng::mix(run) % 4 == 0 {
+        return None; // threads-in-flight crash runs are replayed by (seed, run)
+    }
     if prop == "C06" {
         let every = if tier == "thorough" { 1 } else { 3 };
         let (spec, out) = crate::crash::generate(seed, run, every);
